@@ -704,7 +704,7 @@ func (sp *Spec) loadSpecFile(path, prefix, pkgPath, pkgName string, assumed bool
 			}
 			switch it.kw {
 			case "precall":
-				m := regexp.MustCompile(`^([\w./$*()]+)#(\d+)\s+(.*)$`).FindStringSubmatch(it.text)
+				m := regexp.MustCompile(`^([\w./$*()-]+)#(\d+)\s+(.*)$`).FindStringSubmatch(it.text)
 				if m == nil {
 					return fail(fmt.Errorf("precall callee#k [label] expr"))
 				}
